@@ -141,7 +141,9 @@ fn gen_t(rng: &mut Rng, idx: usize, n: usize) -> String {
     s
 }
 
-const NAMES: &[&str] = &["a", "B", "a10", "a9", "Z", "aa", "A", "b", "_x", "x-1", "10", "9", "a.b", "Ab", "aB", "z", "a1", "a09", "X", "Y"];
+const NAMES: &[&str] = &["a", "B", "a10", "a9", "Z", "aa", "A", "b", "_x", "x-1", "10", "9", "a.b", "Ab", "aB", "z", "a1", "a09", "X", "Y",
+    // long names sharing their first 16..24 bytes
+    "station_north_gauge_level_high", "station_north_gauge_level_low", "station_north_gauge_level", "sensor_reading_0123456789_b", "sensor_reading_0123456789_a"];
 
 fn gen_sx(rng: &mut Rng, depth: usize, top: bool, names: &[&str], consts: bool, out: &mut String) {
     let leaf = depth == 0 || (!top && rng.chance(1, 4));
